@@ -181,19 +181,55 @@ def theorem_names(vfile):
     return re.findall(r"^\s*(?:Theorem|Corollary)\s+(\w+)", open(vfile).read(), re.M)
 
 
+class Died(Exception):
+    """the harness process died, or was stopped by its own watchdog, while the implementation was working on an input it had announced"""
+    def __init__(self, cmd, args, announced, how, stderr):
+        Exception.__init__(self, "%s %s: %s on %s" % (cmd, " ".join(args), how, json.dumps(announced)[:300]))
+        self.cmd, self.hargs, self.announced, self.how, self.stderr = cmd, list(args), announced, how, stderr
+
+
 def run_harness(cmd, args, timeout=1800):
-    """Run a harness command; it prints one JSON object per line on stdout."""
-    p = subprocess.run([os.path.join(BIN, cmd)] + args, stdout=subprocess.PIPE, stderr=subprocess.PIPE, timeout=timeout)
+    """Run a harness command; it prints one JSON object per line on stdout.  {"begin": input} announces the input
+    handed to the implementation next, a case line or {"end":1} closes the announcement, {"hung": ...} is the
+    harness's own watchdog giving up on an announced input."""
+    timed_out = False
+    try:
+        p = subprocess.run([os.path.join(BIN, cmd)] + args, stdout=subprocess.PIPE, stderr=subprocess.PIPE, timeout=timeout)
+        stdout, stderr, rcode = p.stdout, p.stderr, p.returncode
+    except subprocess.TimeoutExpired as e:
+        stdout, stderr, rcode, timed_out = e.stdout or b"", e.stderr or b"", -1, True
     lines = []
-    for ln in p.stdout.decode("utf-8", "replace").splitlines():
+    inflight, hung = None, None
+    for ln in stdout.decode("utf-8", "replace").splitlines():
         ln = ln.strip()
         if ln.startswith("{"):
             try:
-                lines.append(json.loads(ln))
+                o = json.loads(ln)
             except Exception:
+                if rcode != 0:
+                    continue    # a line cut short by the death of the process
                 raise Broken("harness %s printed an unparsable line: %r" % (cmd, ln[:200]))
-    if p.returncode != 0:
-        raise Broken("harness %s %s exited %d:\n%s" % (cmd, " ".join(args), p.returncode, p.stderr.decode("utf-8", "replace")[-3000:]))
+            if "begin" in o:
+                inflight = o["begin"]
+            elif "end" in o:
+                inflight = None
+            elif "hung" in o:
+                hung = o
+            else:
+                if "coq" in o:
+                    inflight = None
+                lines.append(o)
+    err = stderr.decode("utf-8", "replace")
+    if hung is not None:
+        raise Died(cmd, args, hung["hung"].get("begin"), "the call had not returned after %s s" % hung.get("seconds"), err[-6000:])
+    if rcode != 0:
+        if inflight is not None:
+            how = "no answer within %d s" % timeout if timed_out else "the process died (exit %d) inside the call" % rcode
+            m = re.search(r"^(fatal error: .*|panic: .*|runtime: goroutine stack exceeds.*)$", err, re.M)
+            if m:
+                how += ": " + m.group(1)[:200]
+            raise Died(cmd, args, inflight, how, err[:3000] + "\n...\n" + err[-3000:] if len(err) > 6000 else err)
+        raise Broken("harness %s %s exited %d:\n%s" % (cmd, " ".join(args), rcode, err[-3000:]))
     return lines
 
 
@@ -290,6 +326,13 @@ def violation(res, body, found_input):
     print(line, flush=True)
 
 
+def died(res, e):
+    violation(res, {"property": res.prop, "seed": res.seed, "harness": [e.cmd] + e.hargs, "input_announced_by_the_harness": e.announced,
+                    "what_happened": e.how, "stderr": e.stderr,
+                    "note": "the implementation neither returned a value nor an error on this input: " + e.how +
+                            ". Replay: run the harness command; all its choices derive from the seed and the case number."}, True)
+
+
 def known_finding(res, text):
     if text not in res.known:
         res.known.append(text)
@@ -349,6 +392,10 @@ def main(specs):
     fcntl.flock(lock, fcntl.LOCK_EX)
     try:
         rc = run(spec, res, a)
+    except Died as e:
+        died(res, e)
+        write_evidence(res, spec, status="the implementation did not survive an input")
+        return 1
     except Broken as e:
         log("BROKEN CHECK:", e)
         write_evidence(res, spec, status="broken: " + str(e)[:500])
@@ -395,6 +442,8 @@ def run(spec, res, a):
                 res.extra["broken_proof_obligations"] = [{"file": f, "line": l, "error": e[:600]} for f, l, e in fails]
                 try:
                     spec["explore"](spec, res, a)
+                except Died as e:
+                    died(res, e)
                 except Broken as e:
                     log("search after a broken obligation could not run: %s" % e)
                 found = any(fi for _, fi in res.violations)
